@@ -8,7 +8,7 @@ from mc.common import Stats
 from mc.props import c13
 
 THREAD_SCENARIOS = ['seq', 'opt', 'bits', 'proto-pickle', 'selector-fresh', 'selector-shared', 'marker', 'regex-kept', 'regex-nonkept',
-                    'described', 'two-levels', 'positioned', 'seq-data', 'default-list']
+                    'described', 'two-levels', 'positioned', 'seq-data', 'default-list', 'expr']
 
 
 def body_unpack(mod, raw):
